@@ -43,6 +43,11 @@ type Job struct {
 	// reduction of the grammar for the third deviation only - scripts with <= D deviations are
 	// still taken from the full grammar.
 	TripleReps bool
+	// CrossPairs (more than one Byzantine participant, D < 2): additionally all scripts of TWO
+	// deviations, one per Byzantine participant, both on dealing slots (the verification vector or a
+	// private share): two bad dealers acting on the same run - e.g. one honest participant that has
+	// a reason to complain against two different dealers.
+	CrossPairs bool
 }
 
 type replayFile struct {
@@ -150,6 +155,26 @@ func Run(run *ev.Run, prop string, jobs []Job) {
 			}
 			scs = append(scs, more...)
 		}
+		nCross := 0
+		if j.CrossPairs && j.D < 2 {
+			vars := map[string]bool{"omit": true, "wrong": true, "empty": true, "otherpoly": true}
+			if run.Thorough() {
+				for _, v := range []string{"late", "dup", "thenlatewrong", "swapcoef", "long"} {
+					vars[v] = true
+				}
+			}
+			dealing := func(d dkgsys.Deviation) bool {
+				return (d.Slot == "vec" || strings.HasPrefix(d.Slot, "share:")) && vars[d.Var]
+			}
+			for a := 0; a < len(g); a++ {
+				for b := a + 1; b < len(g); b++ {
+					if g[a].Z != g[b].Z && dealing(g[a]) && dealing(g[b]) {
+						scs = append(scs, dkgsys.Script{g[a], g[b]})
+						nCross++
+					}
+				}
+			}
+		}
 		for _, sc := range scs {
 			units = append(units, unit{j, sc})
 		}
@@ -157,7 +182,7 @@ func Run(run *ev.Run, prop string, jobs []Job) {
 		if j.BoundedOrder {
 			order = fmt.Sprintf("<= %d deviations from the default delivery schedule", j.Reorder)
 		}
-		jobInfo = append(jobInfo, map[string]any{"config": j.Cfg.String(), "deviation_bound": j.D, "single_deviations": len(g), "scripts": len(scs), "delivery_order": order, "plus_one_complaint_against_an_honest_dealer": j.PlusComplaint})
+		jobInfo = append(jobInfo, map[string]any{"config": j.Cfg.String(), "deviation_bound": j.D, "single_deviations": len(g), "scripts": len(scs), "delivery_order": order, "plus_one_complaint_against_an_honest_dealer": j.PlusComplaint, "two_dealing_deviations_one_per_byzantine_participant": nCross})
 	}
 	run.Set("jobs", jobInfo)
 	var statsMu sync.Mutex
